@@ -510,6 +510,14 @@ def run(ctx: C.Ctx):
     n_extra += O.scale_stream(ctx, stats, thorough)
     stats["seconds:scale-stream"] = round(_t.time() - t0, 1)
     t0 = _t.time()
+    # pieces that refer to each other: the function-variant memo (model vs the real _parse_function sequence) and the
+    # depth families of helper chains (time by doubling)
+    n_extra += O.variant_correspondence(ctx, stats, rng, 2500 if thorough else 500)
+    stats["seconds:variant-correspondence"] = round(_t.time() - t0, 1)
+    t0 = _t.time()
+    n_extra += O.variant_families(ctx, stats, thorough)
+    stats["seconds:variant-families"] = round(_t.time() - t0, 1)
+    t0 = _t.time()
 
     # ---------------- 4. 'never mutates its input-independent state': sessions of scripts that share literal texts
     n_extra += O.session_stream(ctx, stats, rng, thorough)
@@ -568,6 +576,15 @@ def replay(data):
         print("last script alone:", {k: alone[k] for k in ("sha", "exc")})
         print("last script after the others, same process:", {k: together[-1][k] for k in ("sha", "exc")}, "module-level objects changed:", [r["changed"] for r in together])
         bad = (alone["sha"], alone["exc"]) != (together[-1]["sha"], together[-1]["exc"])
+        print("still failing" if bad else "no longer failing")
+        return 1 if bad else 0
+    if kind == "call-graph":
+        fam = O.V.families().get(case.get("family"))
+        r = O.variants_alone(case["text"], 60)
+        base = O.variants_alone(fam(3), 60) if fam else O.variants_alone(Q.PUMP_HEADER + "led.on()\n", 60)
+        budget = O.SLOW_REL * max(O.VAR_FLOOR, base["wall"]) * max(1, case.get("depth", 3)) / 3
+        print("real parse()+emit():", {k: r[k] for k in ("exc", "wall", "n_parses", "n_blocks")}, "- the same family at depth 3:", {k: base[k] for k in ("exc", "wall", "n_parses")}, "budget", round(budget, 2), "s")
+        bad = r["exc"] == "Timeout" or r["wall"] > budget or r["exc"] not in CLEAN or bool(r["audit"])
         print("still failing" if bad else "no longer failing")
         return 1 if bad else 0
     if kind and (kind.startswith(("regex-pump", "generic-run")) or kind == "scale") and "text" in case and not case["text"].endswith("...<cut>"):
